@@ -2,7 +2,7 @@
 
 use crate::alloc::set_track;
 use crate::case::{Entry, Hint};
-use crate::rt::{self, ClonePanic, ProbePanic, CLONEPANIC, CLONES, NO_TID};
+use crate::rt::{self, ClonePanic, DropPanic, ProbePanic, CLONEPANIC, CLONES, DROPPANIC, DROPS, NO_TID};
 use crate::tlog;
 use std::sync::atomic::Ordering;
 
@@ -27,6 +27,15 @@ impl Drop for Elem {
             tlog!("dropc {}", self.val);
         } else {
             tlog!("drop {}", self.val);
+            // destructor fault injection: the k-th recorded destruction panics (never while already unwinding:
+            // a second panic would abort the process)
+            if rt::logging() {
+                let k = DROPS.fetch_add(1, Ordering::Relaxed);
+                if k == DROPPANIC.load(Ordering::Relaxed) && !std::thread::panicking() {
+                    set_track(false);
+                    std::panic::panic_any(DropPanic);
+                }
+            }
         }
     }
 }
